@@ -232,11 +232,20 @@ func (n *Node) monBroadcast(p *Payload) {
 			if m.preBlockOK < 1 {
 				w.violate("C07", "C07/commit-before-preblock", n, "Commit broadcast before a successful ProcessPreBlock")
 			}
-			cnt := 0
-			for _, pc := range c.PreCommitPayloads {
+			cnt, acceptable := 0, 0
+			pb, _ := c.PreBlock().(*PreBlock)
+			for i, pc := range c.PreCommitPayloads {
 				if pc != nil && pc.ViewNumber() == c.ViewNumber {
 					cnt++
+					// a pre-commit whose data does not fit the pre-block, or that the application's payload verifier refuses,
+					// is not a pre-commit of that validator
+					if pb != nil && pb.Verify(c.Validators[i], pc.GetPreCommit().Data()) == nil && !pc.(*Payload).badWitness {
+						acceptable++
+					}
 				}
+			}
+			if cnt >= c.M() && pb != nil && acceptable < c.M() {
+				w.violate("C07", "C07/commit-without-acceptable-precommit-quorum", n, fmt.Sprintf("Commit broadcast holding %d current-view pre-commits of which only %d are acceptable, M=%d", cnt, acceptable, c.M()))
 			}
 			if cnt < c.M() {
 				w.violate("C07", "C07/commit-without-precommit-quorum", n, fmt.Sprintf("Commit broadcast with %d current-view pre-commits, M=%d", cnt, c.M()))
